@@ -25,8 +25,11 @@ MANIFEST = {
             'skips running executions below a finished child: known finding, corpus/C10/tree_pause_skips.json); '
             'function-level dispatch_into_paused_creates_no_task, dispatch_list_into_paused_creates_no_task, '
             'complete_in_paused_creates_no_task; the propagation on concrete trees (pause root / leaf, resume root / leaf, '
-            'pause then cancel). NOT proved for all trees: every RUNNING execution reached by pause_workflow is PAUSED '
-            'with its calling task, resume brings them back (decided by the tree stream and its monitors).',
+            'pause then cancel). pause_propagates / pause_acknowledged_tree / pause_only_pauses (ALL reachable trees: a '
+            'pause request on an unfinished execution does not raise and every execution reached through unfinished '
+            'sub-workflows at any depth is PAUSED in the same transaction, which creates no row and only moves '
+            'RUNNING to PAUSED; Lemmas/TreeProp). NOT proved for all trees: the calling task of each paused execution '
+            'is PAUSED; resume brings them back (decided by the tree stream and its monitors).',
 }
 RULE = ('stream core: data-free single-activation programs x oracles x schedules x pause/resume/stop at random points, '
         'model vs real after every event; stream engine (mode pause): generated programs with data flow, pause and '
